@@ -538,7 +538,7 @@ def tasks_for(tier):
     quick = tier == 'quick'
     tasks = []
     rnd = random.Random(11)
-    for k in range(4 if quick else 60):
+    for k in range(4 if quick else 30):
         NETS['random#%d' % k] = random_net(k)
     for name, (wires, leaves, ins) in NETS.items():
         n = len(leaves)
@@ -573,7 +573,7 @@ def main(argv=None):
         technique='symbolic execution of the real topologicalSort/propagateAll/clk on symbolic wires; per leaf a QF_BV fixpoint query and per wire an equality query against the canonical construction order',
         assumptions=['Latch and AsynchronousMemory are stateful by the solver-decided classification and are excluded from the fixpoint clause',
                      'rejection clause and the deep-chain replay carry no data and are executed concretely'],
-        bounds={'netlists': sorted(NETS) + ['random#k: seeded acyclic netlists of 4..6 leaves (4 quick / 60 thorough)'], 'orders': 'all n! constructor orders for n <= 5 leaves (quick: 130 seeded of the 720 for n = 6; thorough all), 1-2 late additions',
+        bounds={'netlists': sorted(NETS) + ['random#k: seeded acyclic netlists of 4..6 leaves (4 quick / 30 thorough)'], 'orders': 'all n! constructor orders for n <= 5 leaves (quick: 130 seeded of the 720 for n = 6; thorough all), 1-2 late additions',
                 'library blocks': 'recursively shuffled children, 4/60 seeds (FPAdder_SP 2/12)', 'cycles': '2 clk() calls after creation'},
         trusted_base=['z3', 'symx operator semantics and fork-and-merge shell'], task_limit=600)
 
